@@ -275,6 +275,7 @@ func minimise(s *Scenario, test func(*Scenario) bool, maxTests int, deadline tim
 			func(w *WalkScn) { w.Reentrant, w.SameOpts = false, false },
 			func(w *WalkScn) { w.SameOpts = false },
 			func(w *WalkScn) { w.Warm = false },
+			func(w *WalkScn) { w.Tree = "" },
 			func(w *WalkScn) { w.View = "default" },
 			func(w *WalkScn) { w.View = "virtual-root" },
 			func(w *WalkScn) { w.PreNil = false },
